@@ -308,11 +308,14 @@ def rng(*salt):
 
 def run_units(units, env=None, per=100, tag="units", prelude=None, timeout_ms=30000, case_opts=None,
               variant="plain", engine=None, max_rounds=14):
-    """Evaluate each unit (a source text) as its own top-level evaluation; units of a batch share an
-    engine.  After a panic, a process death or a timeout the remaining units of the batch are re-run
-    in a new batch, so one bad unit costs one unit.  Returns outcomes aligned with `units`:
+    """Evaluate each unit (a source text, or a list of source texts that must run back to back on the same
+    engine) as top-level evaluations; the units of a batch share an engine.  After a panic, a process
+    death or a timeout the remaining units of the batch are re-run in a new batch, so one bad unit
+    costs one unit.  Returns outcomes aligned with `units` (for a group: the outcome of its last text,
+    or of the first text that failed):
       {"ok":True,"vals":[..],"out":str} | {"ok":False,"kind":..,"err":..,"panic":(loc,msg)?}
       | {"died": "signal:11"|"timeout"|.., "stderr": str}"""
+    groups_src = [u if isinstance(u, (list, tuple)) else [u] for u in units]
     out = [None] * len(units)
     pending = list(range(len(units)))
     rounds = 0
@@ -327,8 +330,10 @@ def run_units(units, env=None, per=100, tag="units", prelude=None, timeout_ms=30
             idxs = pending[b:b + per]
             cid = "b%d_%d" % (rounds, b)
             groups[cid] = idxs
-            c = {"id": cid, "timeout_ms": timeout_ms,
-                 "units": ([prelude] if prelude else []) + [units[k] for k in idxs]}
+            flat = []
+            for k in idxs:
+                flat.extend(groups_src[k])
+            c = {"id": cid, "timeout_ms": timeout_ms, "units": ([prelude] if prelude else []) + flat}
             if case_opts:
                 c.update(case_opts)
             cases.append(c)
@@ -339,19 +344,30 @@ def run_units(units, env=None, per=100, tag="units", prelude=None, timeout_ms=30
             res = results.get(cid)
             us = (res["units"] if res else [])[off:]
             stop = False
-            for pos, k in enumerate(idxs):
+            pos = 0
+            for k in idxs:
+                n = len(groups_src[k])
                 if stop:
                     nxt.append(k)
                     continue
-                if pos >= len(us):
-                    if res is not None and res["status"] != "ok" and pos == len(us):
+                mine = us[pos:pos + n]
+                if len(mine) < n and not any((not u.get("ok")) for u in mine):
+                    # the batch ended inside (or before) this group
+                    if res is not None and res["status"] != "ok" and pos + len(mine) == len(us):
                         out[k] = {"died": res["status"], "stderr": res.get("stderr_tail", ""),
                                   "out": res.get("out_tail", "")}
                         stop = True
                     else:
                         nxt.append(k)
+                    pos += n
                     continue
-                u = us[pos]
+                pos += n
+                chosen = None
+                for u in mine:
+                    chosen = u
+                    if not u.get("ok"):
+                        break
+                u = chosen
                 if u.get("ok"):
                     out[k] = {"ok": True, "vals": u.get("vals", []), "out": u.get("out", "")}
                 else:
@@ -360,6 +376,10 @@ def run_units(units, env=None, per=100, tag="units", prelude=None, timeout_ms=30
                         o["panic"] = (u["panics"][0][0], u["panics"][0][1])
                         stop = True  # the engine is not trusted after a panic
                     out[k] = o
+                    if len(mine) < n:
+                        # an error inside a group: the harness went on with the following texts, which
+                        # are out of step now only if stop_on_error was set (it is not); keep positions
+                        pass
         if len(nxt) == len(pending) and per == 1:
             break
         pending = nxt
